@@ -122,11 +122,14 @@ func modelVerdict(ec *ExecCase, o *h.Out) (verdict string, feat map[string]strin
 		return "skip:member-order-cap", nil, ""
 	}
 	// open alternative: exact quotient of integer operands
-	model.ExactIntQuotient = true
-	alt := model.Eval(ec.P.AST, ec.DocValue(), ec.ModelOpts(model.Dev{}))
-	model.ExactIntQuotient = false
-	if alt.Unspec == "" && matchExpect(o, expectations(alt, ec.Silent)) {
-		return "held", nil, ""
+	// ... and the representation of .number() of an integer
+	for _, a := range [][2]bool{{true, false}, {false, true}, {true, true}} {
+		model.ExactIntQuotient, model.NumberAsDouble = a[0], a[1]
+		alt := model.Eval(ec.P.AST, ec.DocValue(), ec.ModelOpts(model.Dev{}))
+		model.ExactIntQuotient, model.NumberAsDouble = false, false
+		if alt.Unspec == "" && matchExpect(o, expectations(alt, ec.Silent)) {
+			return "held", nil, ""
+		}
 	}
 	// Attribute the disagreement to recorded deviations: the smallest set of
 	// deviation switches under which the model reproduces the observed outcome.
@@ -252,6 +255,51 @@ func runC01(c *h.Ctx) {
 	nh := c.PerShard(c.N(200000, 2000000))
 	for i := 0; i < nh; i++ {
 		checkC01(c, eg.harvestCase(i*c.NShards+c.Shard))
+	}
+	// boundary numbers in every representation (integer / decimal literal,
+	// float64 or json.Number document value) on either side of every
+	// comparison and arithmetic operator, as predicate check, filter and value
+	bn := []string{"0", "1", "-1", "2147483647", "2147483648", "9007199254740992", "9007199254740993", "9007199254740992.0", "9223372036854775807", "-9223372036854775808",
+		"9223372036854775806", "9.223372036854775807e18", "1e19", "0.5", "1.5", "4611686018427387904", "123456789012345678901234567890", "18446744073709551616"}
+	k := 0
+	for _, a := range bn {
+		for _, b := range bn {
+			for _, op := range []string{"==", "!=", "<", "<=", ">", ">=", "+", "-", "*", "/", "%"} {
+				for form := 0; form < 6; form++ {
+					k++
+					if !c.Mine(k) {
+						continue
+					}
+					var txt string
+					switch form {
+					case 0:
+						txt = fmt.Sprintf("%s %s $.b", a, op)
+					case 1:
+						txt = fmt.Sprintf("$.a %s %s", op, b)
+					case 2:
+						txt = fmt.Sprintf("$.a %s $.b", op)
+					case 3:
+						txt = fmt.Sprintf("$.a.double() %s $.b", op)
+					case 4:
+						txt = fmt.Sprintf("strict $.a %s $.b.number()", op)
+					case 5:
+						txt = fmt.Sprintf("$ ? (@.a %s @.b || @.b %s %s)", map[bool]string{true: op, false: "=="}[len(op) == 2 || op == "<" || op == ">"], map[bool]string{true: op, false: "<"}[len(op) == 2 || op == "<" || op == ">"], a)
+					}
+					if len(a) > 19 && (form == 0 || form == 5) || len(b) > 19 && form == 1 {
+						continue // not a path literal
+					}
+					doc := fmt.Sprintf(`{"a":%s,"b":%s}`, a, b)
+					for _, useNum := range []bool{false, true} {
+						ec, err := CaseFrom(h.Case{Path: txt, Doc: doc, UseNum: useNum, Vars: stdVars})
+						if err != nil {
+							c.Count("gen.unparsable", 1)
+							continue
+						}
+						checkC01(c, ec)
+					}
+				}
+			}
+		}
 	}
 	c.Count("harvested.paths", int64(len(harvestedPaths())))
 	c.Count("gen.rejected-by-parser", int64(eg.Bad))
